@@ -410,6 +410,12 @@ func (e *runEnv) contextW(data map[string]absVal, wrapped []string) *plush.Conte
 	if _, ok := data["n0"]; !ok {
 		ctx.Set("n0", 1)
 	}
+	// ... and an array with spare capacity (what append-in-place would write into)
+	if _, ok := data["sx"]; !ok {
+		sx := make([]interface{}, 2, 8)
+		sx[0], sx[1] = "p", "q"
+		ctx.Set("sx", sx)
+	}
 	// getx(): the value bound to x, handed to the template as a helper's result (no variable read)
 	if x, ok := data["x"]; ok && x.T != "gofn" {
 		gx := materialize(x, e)
